@@ -9,16 +9,19 @@ import (
 	"crypto/x509"
 	"fmt"
 	"math/big"
+	"os"
 	"sync"
 
 	"github.com/libp2p/go-libp2p/core/crypto"
 	"github.com/libp2p/go-libp2p/core/peer"
+
+	"verifsim/simrand"
 )
 
-// Identity keys are referred to by (type, slot) everywhere (traces, signatures, classes): RSA keys are
-// random per process (crypto/rsa cannot be seeded), so neither key bytes nor peer IDs may reach the
-// observable history. Ed25519, ECDSA and Secp256k1 keys are built from fixed scalars so that replays
-// in another process use the same keys.
+// Identity keys are referred to by (type, slot) everywhere (traces, signatures, classes). Ed25519, ECDSA and
+// Secp256k1 keys are built from fixed scalars, RSA keys are generated from simrand's seeded stream at process
+// start (warmKeys), so that every process uses the same keys: instrumented packages iterate maps in key
+// order, and a peer ID that differs between processes would reorder them.
 const (
 	ktEd25519 = iota
 	ktECDSA
@@ -81,6 +84,10 @@ func makeKey(typ, slot int) (crypto.PrivKey, error) {
 		}
 		return crypto.UnmarshalECDSAPrivateKey(der)
 	case ktRSA:
+		// crypto/rsa cannot be seeded through an ordinary reader (randutil.MaybeReadByte), but simrand's stream is built
+		// to survive exactly that: the key is a function of (type, slot) in every process
+		restore := installRand(0xC01000 + uint64(slot))
+		defer restore()
 		k, _, err := crypto.GenerateRSAKeyPair(2048, rand.Reader)
 		return k, err
 	}
@@ -128,4 +135,31 @@ func nameOf(p peer.ID) string {
 		}
 	}
 	return "?"
+}
+
+// warmKeys builds every identity key before the first run (RSA generation swaps crypto/rand.Reader for a moment,
+// which must not happen while tasks of a run are reading from it).
+func warmKeys() {
+	for t := 0; t < nKeyTypes; t++ {
+		for sl := 0; sl < nSlots; sl++ {
+			keyOf(ident{t, sl})
+		}
+	}
+}
+
+// installRand is simrand.Install whose restore function also puts the process' GODEBUG back: Install switches
+// TLS to the X25519 key share (tlsmlkem=0, ML-KEM key generation cannot be seeded) for the whole process and
+// leaves it that way. The TCP strata run with crypto/tls' default (hybrid X25519MLKEM768) key share, so the
+// setting must not leak from a QUIC run (or from warmKeys) into the runs that follow in the same process.
+func installRand(seed uint64) func() {
+	prev, had := os.LookupEnv("GODEBUG")
+	restore := simrand.Install(seed)
+	return func() {
+		restore()
+		if had {
+			os.Setenv("GODEBUG", prev)
+		} else {
+			os.Unsetenv("GODEBUG")
+		}
+	}
 }
